@@ -198,7 +198,14 @@ def run_check(prop, tier):
             else:
                 other += 1
 
-    verdict = findings.adjudicate(prop, cases_to_confirm, lambda c: txnfam.confirm(_vh, c))
+    api_cov = None
+    if prop in ("C03", "C15"):
+        # operations built through the client's model API (Api.tla)
+        import checks_apiops
+        api_cases, api_cov = checks_apiops.run_for(prop, tier, _vh)
+        cases_to_confirm += api_cases
+    verdict = findings.adjudicate(prop, cases_to_confirm,
+                                  lambda c: checks_apiops.confirm_fn(_vh)(c) if "api_case" in c else txnfam.confirm(_vh, c))
     # vacuity guard: a scripted scenario that never fired checks nothing
     scen = {}
     for r in results:
@@ -225,6 +232,7 @@ def run_check(prop, tier):
         "over_rejections_tolerated": over,
         "mismatches_for_other_properties": other,
         "known_findings_seen": verdict["known"],
+        "model_api": api_cov or {},
         "samples": samples or [{"note": "no multi-operation committed transaction in this run"}],
         "schemas": sorted({"%s/%s" % (j["schema"], j["schema_seed"]) for j in jobs}),
         "rule": "MC_Txn explores every history of the operation pool up to the stated depth (invariants on every state); "
